@@ -72,6 +72,36 @@ NA = {
 }
 PENDING = []
 
+CERT = (" PLUS the certificate engine (second engine, DESIGN 8.2): the real Solver::solve (dev and release builds, real dependencies) is run on every universe of an "
+        "enumerated bounded family (150 per family quick, 4000 thorough; families plain/full/wide/hints/hard/soft/reuse) and z3 decides over ALL selections of the solvables: ")
+CERT_NOTE = " Certificate engine: universes are enumerated by a seeded generator (not symbolic); Spec(U) is written from the text of C01; read-only dump accessors are attached to the scratch copy under cfg(verif_cert); z3 (python3-vt) trusted, `unknown` => inconclusive."
+CHECKS["C01"]["text"] += CERT + "the returned solution satisfies Spec(U), and the clause database emitted by the real Encoder implies Spec(U) restricted to everything that was fetched (no requirement, constrains entry, lock, exclusion or one-per-package fact is missing)."
+CHECKS["C01"]["note"] += CERT_NOTE
+CHECKS["C01"]["technique"] += "; SMT (z3) validation over all selections of the clause database and solution produced by the real solver per enumerated universe"
+CHECKS["C02"]["text"] += CERT + "SAT(Spec(U)) equals the verdict (both directions), every emitted problem clause is implied by Spec(U) (no valid solution is excluded), and every learnt clause is implied by the clauses allocated before it (derivation order)."
+CHECKS["C02"]["note"] += CERT_NOTE
+CHECKS["C02"]["technique"] += "; SMT (z3) decision of the verdict and of clause/learnt-clause entailment per enumerated universe"
+CHECKS["C04"]["text"] += " Additionally (observation of real runs, not a solver query): the certificate engine's universes are solved and rendered by the dev and release builds; a panic or a run that does not come back within 10 s is a violation."
+CHECKS["C05"]["text"] += " Additionally (evaluation of real output, not a solver query): every solution returned for the certificate engine's universes is checked for support - each selected solvable is reachable from the root or an accepted soft requirement through requirement edges whose chosen candidate is selected."
+CHECKS["C15"]["text"] += CERT + "per package, the forbid clauses the real Encoder emitted (registration order and grouping as they happen in real solves, up to 9 candidates per package) admit every single registered candidate and no two together, and every pair of candidates revealed through requirements is excluded by the clause database."
+CHECKS["C15"]["note"] += CERT_NOTE
+CHECKS["C16"]["text"] += ""
+NEW = {
+    "C03": ("For every universe of the enumerated families whose verdict is Unsolvable, the conflict graph returned by the real Conflict::graph is checked: every edge is compared with the universe (requirement belongs to its source and its targets are exactly its candidates, or the unresolved node; constrains/lock/exclusion targets really are non-matching/locked out/excluded; forbid edges join one package), every node is reachable from the root, and z3 decides that root AND the facts shown in the graph alone (plus one-per-package for forbid-joined nodes) is UNSAT. Every learnt clause is certified against its recorded antecedents (learnt_why), which is what the report expands. PARTIAL: universes are enumerated (not symbolic); the simplified graph, graphviz and the text are rendered but their content is not compared.",
+            "SMT (z3) refutation of the facts shown in the real conflict graph + entailment of learnt clauses from their recorded antecedents, per enumerated universe"),
+    "C07": ("For every universe in which the closure of 'first-ranked candidate of every requirement' (favored first, then sort_candidates order, union members in listed order) is a selection that z3 confirms to satisfy Spec(U) and in which each requirement is met only by its own first choice, the real solve must return exactly that selection. PARTIAL: universes are enumerated; the antecedent's consistency is decided by z3, the conclusion is a comparison with the real output.",
+            "SMT (z3) decision of the antecedent (consistency of the preferred closure) + comparison with the real solver's output, per enumerated universe"),
+    "C08": ("For every universe with single-package root requirements: if the returned solution lacks the first-ranked candidate of one of them, z3 decides the property's existential antecedent - SAT(Spec(U) AND the first-ranked candidates of ALL single-package root requirements) - and a SAT answer is a violation. PARTIAL: universes are enumerated (not symbolic).",
+            "SMT (z3) decision of the existential antecedent over all selections, per enumerated universe"),
+    "C13": ("Sequences of 2-4 different problems are solved on ONE solver instance: each call's verdict must equal z3's verdict for that problem alone, its solution must satisfy Spec(U), its clause database and learnt clauses are certified like a first call's, and the provider call log over the whole sequence must not repeat get_candidates(name) or get_dependencies(solvable). PARTIAL: universes and sequences are enumerated; sequences after Cancelled are not generated.",
+            "SMT (z3) decision of each call's verdict/solution on a reused solver + call-log comparison, per enumerated universe"),
+    "C14": ("Problems with 1-3 soft requirements: z3 decides SAT(Spec(hard)) (SAT => solve must succeed); the returned set must satisfy Spec(U) for the hard part and every accepted soft solvable (dependencies, constrains, Unknown rejected, one solvable per package; only the lock/exclusion list of the directly named solvable's own package is exempt); when the hard problem is conflict-free and the first soft solvable's preferred closure is consistent with it (z3), that solvable must be installed. PARTIAL: universes are enumerated; only the first soft requirement's inclusion is checked.",
+            "SMT (z3) decision of hard-problem satisfiability, solution validity and soft-closure compatibility, per enumerated universe"),
+}
+for k, (text, tech) in NEW.items():
+    CHECKS[k] = dict(text=text, note="certificate engine only." + CERT_NOTE, technique=tech, engine="cert", category="translation_validation", ref="DESIGN.md 8.2/" + k)
+    NA.pop(k, None)
+
 
 def main():
     checks = []
@@ -84,7 +114,7 @@ def main():
             "evidence_file": "/verif/evidence/%s.json" % pid,
             "replay_cmd_template": "./check %s --replay {path}" % pid,
             "engine": c.get("engine", "kani"),
-            "level_claimed": {"category": "model_checking", "text": c["text"], "design_ref": c["ref"]},
+            "level_claimed": {"category": c.get("category", "model_checking"), "text": c["text"], "design_ref": c["ref"]},
             "level_note": c["note"],
             "technique": c["technique"],
         })
@@ -97,8 +127,8 @@ def main():
         "version": 1,
         "setup_cmd": "./setup.sh",
         "hooks": {
-            "guard": "kani",
-            "enable": "none needed: harness modules are attached with `#[cfg(kani)] #[path=..] mod ..;` to a scratch copy of /repo's working tree made by every check; /repo itself carries no hook commits",
+            "guard": "kani / verif_cert",
+            "enable": "none needed: harness modules (`#[cfg(kani)] #[path=..] mod ..;`) and the read-only dump accessors of the certificate engine (`#[cfg(verif_cert)]`, built with RUSTFLAGS=--cfg verif_cert) are appended to a scratch copy of /repo's working tree made by every check; /repo itself carries no hook commits",
             "baseline_off_cmd": "cd /repo && cargo test --workspace --no-fail-fast --offline",
             "source_commits": [],
             "add_only": True,
@@ -106,6 +136,8 @@ def main():
         "engines": [
             {"name": "kani", "path": "/verif/lib/common.py", "serves_properties": sorted(k for k in CHECKS if CHECKS[k].get("engine", "kani") == "kani"),
              "kind_free_text": "cargo-kani 0.68 (CBMC 6.11 + CaDiCaL) on harnesses under /verif/kani attached to a scratch copy of /repo"},
+            {"name": "cert", "path": "/verif/lib/cert.py", "serves_properties": ["C01", "C02", "C03", "C04", "C05", "C07", "C08", "C13", "C14", "C15"],
+             "kind_free_text": "certificate engine: native/cert runs the real Solver::solve of the scratch copy on enumerated universes and dumps clause database, learnt clauses, conflict graph; lib/cert.py asks z3 (python3-vt) the entailment/satisfiability questions over all selections"},
             {"name": "z3", "path": "/verif/lib/c15_z3.py", "serves_properties": ["C15"],
              "kind_free_text": "z3 (python3-vt) + cvc5 on the CNF emitted by the real binary_encoding.rs executed natively from the scratch copy"},
         ],
